@@ -445,6 +445,28 @@ theorem C18_maxwidth_shape (text : List Char) (n : Int) (h : 5 ≤ n) :
 theorem C18_split_words (text : List Char) : ∀ wd ∈ splitWords text, wd ≠ [] ∧ ∀ c ∈ wd, isWs c = false :=
   splitWords_good text
 
+/-- `subst`: where the pattern does not occur, nothing changes -/
+theorem C18_subst_absent (p r s : List Char) (h : containsL p s = false) : substGo p r 0 s = s := by
+  induction s with
+  | nil => rfl
+  | cons c cs ih =>
+    simp only [containsL, Bool.or_eq_false_iff] at h
+    simp only [substGo, h.1, Bool.false_eq_true, if_false, ih h.2]
+
+/-- `subst` of a one-character pattern replaces exactly the occurrences of that character, all of them -/
+theorem C18_subst_char (a : Char) (r s : List Char) :
+    substGo [a] r 0 s = (s.map (fun c => if a == c then r else [c])).flatten := by
+  induction s with
+  | nil => rfl
+  | cons c cs ih =>
+    simp only [substGo, isPrefixL, List.length_singleton, Nat.sub_self, ih, List.map_cons, List.flatten_cons]
+    cases hc : a == c <;> simp
+
+theorem C18_subst_examples :
+    substGo "la".toList "LA".toList 0 "lala land la".toList = "LALA LAnd LA".toList
+    ∧ substGo "aa".toList "b".toList 0 "aaaaa".toList = "bba".toList
+    ∧ substGo ":".toList "/".toList 0 "Assets:A:B:C".toList = "Assets/A/B/C".toList := by decide
+
 theorem C18_maxwidth_examples :
     shorten "lunch with the team".toList 12 = some "lunch [...]".toList ∧
     shorten "  lunch \t with  ".toList 12 = some "lunch with".toList ∧
